@@ -71,7 +71,7 @@ def obligation(cls, method):
             require_same(got, exp, "%s.%s is not the derivative of %s w.r.t. %s" % (cls, method, op, wrt))
             return dict(shape=list(got.shape), terms=nterms(got), mode="ambient derivative (pure in the differentiated operand)")
         hook = zero_hook(operand_names("d", CDIM[cls])) if op == "boxplus" else None
-        return run_obligation(pkg, fn, hook=hook)
+        return run_obligation(pkg, fn, hook=hook, divisors=lambda name: True)
 
     def tangent(pkg):
         # derivative along the manifold: J * jacobian_boxplus(operand) == d/d delta op(operand [+] delta) at 0
@@ -99,7 +99,7 @@ def obligation(cls, method):
             got = it.dot(it.call_method(a, method, arg), it.call_method(base, "jacobian_boxplus", []), None)
             require_same(got, exp, "%s.%s chained with jacobian_boxplus is not the derivative of %s along the manifold" % (cls, method, op))
             return dict(shape=list(got.shape), terms=nterms(got), mode="derivative along the manifold (chained with jacobian_boxplus)")
-        return run_obligation(pkg, fn, hook=zero_hook(operand_names("d", CDIM[POINT_OF[cls] if wrt == "point" else cls])))
+        return run_obligation(pkg, fn, hook=zero_hook(operand_names("d", CDIM[POINT_OF[cls] if wrt == "point" else cls])), divisors=lambda name: True)
 
     def run(pkg):
         r = strict(pkg)
